@@ -257,7 +257,8 @@ def c01_ops(kind, pv, S, r):
 
 
 def c01_streams(tier, rng):
-    return [StreamSet("roundtrip", "asan", kind_cases(tier, rng, ALL_KINDS, c01_ops))]
+    return [StreamSet("roundtrip", "asan", kind_cases(tier, rng, ALL_KINDS, c01_ops)),
+            StreamSet("scale", "asan", scale_cases(tier, rng, scale_ops_roundtrip), timeout=600)]
 
 
 PROPS["C01"] = PropSpec(
@@ -355,7 +356,8 @@ def c06_streams(tier, rng):
         for how in (["reload", "own", 1], ["reload", "generic"]):
             lc.append(("pl_%s_%s" % (kind, how[1]), "dict", kind, {"b": 8, "ov": 25}, S, [how] + qs + [["exts"], how] + qs))
     # images are self-delimiting: the `reload` op appends a trailer and checks tellg
-    return [StreamSet("persist", "asan", cases), StreamSet("longcodes", "asan", lc, timeout=120)]
+    return [StreamSet("persist", "asan", cases), StreamSet("longcodes", "asan", lc, timeout=120),
+            StreamSet("scale", "asan", scale_cases(tier, rng, scale_ops_persist, phases=("loaded", "generic")), timeout=600)]
 
 
 def c08_ops(kind, pv, S, r):
@@ -392,7 +394,8 @@ def c08_streams(tier, rng):
           for kind in ("HTFC", "HHTFC", "RPHTFC", "HASHHF", "HASHUFFDAC")]
     return [StreamSet("saves", "asan", main), StreamSet("k5", "asan", k5), StreamSet("longcodes", "asan", lc, timeout=120),
             StreamSet("sizes", "asan", sweep), StreamSet("sizes-refilled", "asan", sweep, env=refill, cross_with="sizes"),
-            StreamSet("saves-refilled", "asan", main, env=refill, cross_with="saves")]
+            StreamSet("saves-refilled", "asan", main, env=refill, cross_with="saves"),
+            StreamSet("scale", "asan", scale_cases(tier, rng, scale_ops_resave, phases=("built",)), timeout=600)]
 
 
 def c13_ops(kind, pv, S, r):
@@ -441,9 +444,12 @@ def c16_ops(kind, pv, S, r):
     return ops
 
 
-def simple_dict_prop(ops_fn, kinds, name, phases=("built", "loaded"), many=False):
+def simple_dict_prop(ops_fn, kinds, name, phases=("built", "loaded"), many=False, scale=None, scale_phases=("built", "loaded")):
     def f(tier, rng):
-        return [StreamSet(name, "asan", kind_cases(tier, rng, kinds, ops_fn, phases=phases, many=many))]
+        out = [StreamSet(name, "asan", kind_cases(tier, rng, kinds, ops_fn, phases=phases, many=many))]
+        if scale is not None:
+            out.append(StreamSet("scale", "asan", scale_cases(tier, rng, globals()[scale], kinds=kinds, phases=scale_phases), timeout=600))
+        return out
     return f
 
 
@@ -452,7 +458,7 @@ _RULE = ("battery (G1 small-scope subsets over {a,b}, G2 structured random with 
          "parameter vectors × {built, reloaded}; %s; non-trivial = at least 2 strings; distinct by hash of (kind, params, strings, ops)")
 _ASSUME = ["the input contract validDict (sorted, duplicate-free, bytes 0x02..0xFE)"]
 
-PROPS["C02"] = PropSpec(simple_dict_prop(c02_ops, ALL_KINDS, "absent"),
+PROPS["C02"] = PropSpec(simple_dict_prop(c02_ops, ALL_KINDS, "absent", scale="scale_ops_absent"),
                         _RULE % "queries: members, proper prefixes, one-byte extensions, ±1 on the last byte, below first / above last, bytes absent from the dictionary; IDs 0, n+1, 2^32±1, 2^64−1",
                         _PART, "the refinement theorems read at non-members; ASan monitors the reads of the real code", _ASSUME)
 def c03_streams(tier, rng):
@@ -467,7 +473,7 @@ def c03_streams(tier, rng):
 PROPS["C03"] = PropSpec(c03_streams,
                         _RULE % "extract(i) for IDs, locate of members, locateRank/extractRank for ranks",
                         _PART, "IDs of order-preserving kinds are lexicographic ranks (corollary of the refinement theorems)", _ASSUME)
-PROPS["C04"] = PropSpec(simple_dict_prop(c04_ops, PREFIX_KINDS, "prefix", phases=("built", "loaded", "loaded2")),
+PROPS["C04"] = PropSpec(simple_dict_prop(c04_ops, PREFIX_KINDS, "prefix", phases=("built", "loaded", "loaded2"), scale="scale_ops_prefix"),
                         _RULE % "patterns: prefixes of members, one-byte extensions, members, longer than every member, below/above all members",
                         _PART, "prefix search equals the contiguous specification range", _ASSUME)
 PROPS["C05"] = PropSpec(simple_dict_prop(c05_ops, SUBSTR_KINDS, "substr", phases=("built", "loaded", "loaded2")),
@@ -492,13 +498,14 @@ def c13_streams(tier, rng):
             for b in range(2, (42 if tier == "thorough" else 42)):
                 ops = [["tabx"], ["tabs"], ["tab"], ["reload", "own", 1], ["tabs"], ["tab"]]
                 dense.append(("dn%d_%d_%s_b%d" % (len(alpha), maxlen, kind, b), "dict", kind, {"b": b}, U, ops))
-    return base + [StreamSet("dense", "asan", dense)]
+    return base + [StreamSet("dense", "asan", dense),
+                   StreamSet("scale", "asan", scale_cases(tier, rng, scale_ops_table), timeout=600)]
 
 
 PROPS["C13"] = PropSpec(c13_streams,
                         _RULE % "extractTable vs extract(k), sorted table, string/ID iterators of prefix and substring searches, NUL termination and reported lengths",
                         _PART, "iterator state machines drain to the specification lists", _ASSUME)
-PROPS["C15"] = PropSpec(simple_dict_prop(c15_ops, ALL_KINDS, "meta", phases=("built", "loaded", "loaded2")),
+PROPS["C15"] = PropSpec(simple_dict_prop(c15_ops, ALL_KINDS, "meta", phases=("built", "loaded", "loaded2"), scale="scale_ops_meta", scale_phases=("built", "loaded", "generic")),
                         _RULE % "numElements and maxLength on built and reloaded objects",
                         _PART, "counter folds of the constructor models", _ASSUME)
 PROPS["C16"] = PropSpec(simple_dict_prop(c16_ops, ALL_KINDS, "failsafe"),
@@ -531,7 +538,24 @@ def c12_streams(tier, rng):
             for b in (0, 1):
                 clamp.append(("clamp_%s_%s_b%d" % (dname, kind, b), "dict", kind, {"b": b}, S,
                               c12_ops(kind, {"b": b}, S, rng)))
-    return [StreamSet("params", "asan", cases), StreamSet("clamp", "asan", clamp)]
+    # tables of thousands of slots under every overhead and every load representation (rank/select
+    # super-blocks, sampling boundaries), bucket sizes up to the whole dictionary
+    D = scale_dicts(tier, rng)
+    S = D["mid6k"]
+    r = rng.fork("c12scale")
+    members = scale_members(S, r, 250)
+    big = []
+    for kind in ("HASHHF", "HASHRPF", "HASHUFFDAC", "HASHRPDAC"):
+        for ov in (0, 10, 25, 100, 300):
+            for lopt in ((0, 1, 2, 3) if kind in ("HASHHF", "HASHRPF") else (0, 1)):
+                pre = [["reload", "own", lopt]] if lopt else []
+                big.append(("sp_%s_%d_%d" % (kind, ov, lopt), "dict", kind, {"ov": ov, "scale": 1}, S,
+                            pre + [["rt", hx(x)] for x in members] + [["tabh"], ["meta"]]))
+    for kind in FC_KINDS:
+        for b in (2, 7, 64, 1000, 5999, 6000, 20000):
+            big.append(("sp_%s_b%d" % (kind, b), "dict", kind, {"b": b, "scale": 1}, S,
+                        [["rt", hx(x)] for x in members[:80]] + [["ext", i] for i in (1, 2, len(S) - 1, len(S))] + [["tabh"]]))
+    return [StreamSet("params", "asan", cases), StreamSet("clamp", "asan", clamp), StreamSet("scale", "asan", big, timeout=600)]
 
 
 def history_ops(kind, pv, S, r, length):
@@ -650,6 +674,7 @@ def c07_streams(tier, rng):
                     cs.append(("gd%d_%s_%s_b%d" % (mem, dname, kind, b), "dict", kind, {"b": b}, S,
                                all_query_ops(kind, {"b": b}, S, rng.fork(dname + kind), cap=6) + [["tabx"], ["resave", 1]]))
         out.append(StreamSet("memalloc%d" % mem, "asan", cs, extra_defs=("-DLIBCSD_VERIF_MEMALLOC=%d" % mem,), tag="_mem%d" % mem, timeout=60))
+    out.append(StreamSet("scale", "asan", scale_cases(tier, rng, scale_ops_persist, phases=("built",)), timeout=600))
     return out
 
 
@@ -851,6 +876,131 @@ def longcw_dict(tier, rng):
     S = sorted(body | set(rare))
     probe = rare + r.sample(sorted(body), 25)
     return S, rare, probe
+
+
+# ---------------------------------------------------------------------------
+# scale: one large dictionary per kind (thousands of strings, table sizes above 2^16, grammars above 2^16
+# rules, tries above 2^14 nodes, compressed texts above the initial 32 KB buffers); the answers are
+# summarised (hashes) and compared with the specification
+_SCALE_CACHE = {}
+
+
+def scale_dicts(tier, rng):
+    key = (tier, rng.fork("scale").range(0, 1 << 30))
+    if key in _SCALE_CACHE:
+        return _SCALE_CACHE[key]
+    r = rng.fork("scale-d")
+    thorough = tier == "thorough"
+
+    def rnd(n, lo, hi, alpha):
+        out = set()
+        while len(out) < n:
+            out.add(bytes(r.choice(alpha) for _ in range(r.range(lo, hi))))
+        return sorted(out)
+    a60 = [0x30 + i for i in range(60)]
+    a40 = [0x41 + i for i in range(40)]
+    a26 = gen.ALPHABETS[26]
+    d = {
+        "hash150k": rnd(150001, 6, 9, a60),            # 150001 is prime: with overhead 0 the table is full
+        "fc100k": rnd(100000, 1, 40, a40),             # Re-Pair over the front-coded text: > 65280 rules
+        "trie12k": rnd(12000 if not thorough else 20000, 3, 14, a26),   # > 16384 trie nodes
+        "mid6k": rnd(6000, 4, 60, a26 + [0x20, 0x2d]),
+    }
+    _SCALE_CACHE[key] = d
+    return d
+
+
+SCALE_PLAN = [
+    # (kind, dictionary, parameters)
+    ("HASHHF", "hash150k", {"ov": 0}), ("HASHRPF", "hash150k", {"ov": 0}), ("HASHUFFDAC", "hash150k", {"ov": 0}),
+    ("HASHRPDAC", "mid6k", {"ov": 10}), ("BLOCKS", "mid6k", {"ov": 25, "cut": 20000, "thr": 4}),
+    ("RPFC", "fc100k", {"b": 16}), ("RPHTFC", "fc100k", {"b": 16}), ("PFC", "fc100k", {"b": 1000}),
+    ("HTFC", "mid6k", {"b": 16}), ("HHTFC", "mid6k", {"b": 33}),
+    ("XBW", "trie12k", {}), ("FMINDEX", "trie12k", {"rrr": 1, "bs": 7, "bwt": 5}), ("FMINDEX", "mid6k", {"rrr": 0, "bs": 20, "bwt": 16}),
+    ("RPDAC", "trie12k", {}),
+]
+
+
+def scale_cases(tier, rng, ops_fn, kinds=None, phases=("built", "loaded")):
+    """ops_fn(kind, pv, S, r) -> ops (use the summary ops tabh/xph, never exts/tab on these sizes)."""
+    D = scale_dicts(tier, rng)
+    cases = []
+    for kind, dn, pv in SCALE_PLAN:
+        if kinds is not None and kind not in kinds:
+            continue
+        S = D[dn]
+        r = rng.fork("scale" + kind + dn)
+        pv = dict(pv)
+        pv["scale"] = 1
+        ops = ops_fn(kind, pv, S, r)
+        if not ops:
+            continue
+        for ph in phases:
+            pre = []
+            if ph == "loaded":
+                pre = [["reload", "own", 1]]
+            elif ph == "loaded2":
+                pre = [["reload", "own", 1], ["reload", "own", 1]]
+            elif ph == "generic":
+                pre = [["reload", "generic", 1]]
+            cases.append(("sc_%s_%s_%s" % (kind, dn, ph), "dict", kind, pv, S, pre + ops))
+    return cases
+
+
+def scale_members(S, r, k=120):
+    """first / last members (the last ones are inserted last into a hash table), and a sample"""
+    return S[:10] + S[-40:] + r.sample(S, k)
+
+
+def scale_ops_roundtrip(kind, pv, S, r):
+    n = len(S)
+    ops = [["rt", hx(s)] for s in scale_members(S, r)]
+    if kind in ORDERED_KINDS:
+        ops += [["ext", i] for i in [1, 2, n - 1, n] + [r.range(1, n) for _ in range(60)]]
+        ops += [["loc", hx(s)] for s in r.sample(S, 40)]
+    return ops
+
+
+def scale_ops_absent(kind, pv, S, r):
+    qs = [q for q in gen.queries_members_and_neighbours(r, S, 40)][:120]
+    # strings made of bytes that occur nowhere in the dictionary (long codewords), of several lengths
+    foreign = [bytes(r.range(0x80, 0xFE) for _ in range(L)) for L in (1, 5, 12, 40, 150)]
+    ops = [["rt", hx(q)] for q in qs + foreign]
+    ops += [["ext", i] for i in gen.bad_ids(len(S))]
+    return ops
+
+
+def scale_ops_prefix(kind, pv, S, r):
+    if kind not in PREFIX_KINDS:
+        return []
+    ops = []
+    ps = [s[:max(2, len(s) - r.range(0, 3))] for s in r.sample(S, 40)] + [S[0][:1], S[-1][:1], S[len(S) // 2][:2]]
+    for p in ps:
+        ops.append(["xph", hx(p)])
+    for p in ps[:30]:
+        if len(p) >= 3:
+            ops.append(["pre", hx(p)])
+    return ops
+
+
+def scale_ops_table(kind, pv, S, r):
+    return [["meta"]] + ([["tabh"]] if kind != "XBW" else []) + scale_ops_prefix(kind, pv, S, r)[:12]
+
+
+def scale_ops_persist(kind, pv, S, r):
+    ops = [["meta"]] + scale_ops_roundtrip(kind, pv, S, r)[:60] + scale_ops_prefix(kind, pv, S, r)[:10]
+    if kind != "XBW":
+        ops.append(["tabh"])
+    return ops
+
+
+def scale_ops_meta(kind, pv, S, r):
+    return [["meta"]]
+
+
+def scale_ops_resave(kind, pv, S, r):
+    q = scale_ops_roundtrip(kind, pv, S, r)[:20]
+    return [["save2"]] + q + [["resave", 1], ["save2"]] + q
 
 
 def chunks_phase2(case, impl_lines):
